@@ -253,3 +253,36 @@ pub fn forget(store: u64) {
     SHUTDOWN.lock().unwrap().retain(|s| *s != store);
     PARKED.lock().unwrap().retain(|p| p.store != store);
 }
+
+// Names for the versions of a tree: `install_version` numbers the version it installs (a counter
+// that only grows), `take_snapshot` reports the number of the version it hands out; 0 is a version
+// that was never installed (the one a tree opens with).  Both are called under the tree's version
+// mutex, so the `tree.install` / `tree.snapshot` events are in the order of the swaps and clones.
+static VERSION_SEQ: AtomicU64 = AtomicU64::new(0);
+static VERSIONS: Mutex<Vec<(usize, u64)>> = Mutex::new(Vec::new());
+
+/// Number the version at `ptr`, which has just been installed.
+pub fn version_installed(ptr: usize) -> u64 {
+    let id = VERSION_SEQ.fetch_add(1, Ordering::SeqCst) + 1;
+    let mut v = VERSIONS.lock().unwrap();
+    v.retain(|x| x.0 != ptr);
+    if v.len() >= 4096 {
+        v.remove(0);
+    }
+    v.push((ptr, id));
+    id
+}
+
+/// The number of the version at `ptr` (0: never installed).
+pub fn version_id(ptr: usize) -> u64 {
+    if EVENTS_ON.load(Ordering::SeqCst) == 0 && PAUSE_ON.load(Ordering::SeqCst) == 0 {
+        return 0;
+    }
+    let v = VERSIONS.lock().unwrap();
+    v.iter().rev().find(|x| x.0 == ptr).map(|x| x.1).unwrap_or(0)
+}
+
+/// Forget the numbered versions (a freed version's address may be reused by another tree).
+pub fn versions_reset() {
+    VERSIONS.lock().unwrap().clear();
+}
